@@ -174,11 +174,12 @@ def target_container_emitter():
             asked = []
 
             class Con:
-                def __init__(self, name, n, children=None):
+                def __init__(self, name, n, children=None, direct=None):
                     self.name, self.n, self.children = name, n, (n if children is None else children)
+                    self.direct = n if direct is None else direct      # elements that are direct children (the rest sit in nested connections)
 
-                def get_elements(self):
-                    return [0] * self.n
+                def get_elements(self, recursive=True):
+                    return [0] * (self.n if recursive else self.direct)
 
                 def __len__(self):                 # direct children: a connection can hold (emptied) nested connections and still have no element
                     return self.children
@@ -186,15 +187,16 @@ def target_container_emitter():
                 def to_string(self, decimals=-1):
                     asked.append((self.name, decimals))
                     return f"<{self.name}>"
-            subs = {"Zeta": Con("zeta", 2), "X_1": None, "X_2": Con("x2", 0), "Z_A": Con("za", 0, children=1)}
+            # Z_B: every element sits inside a nested connection ('[(RC)]'): it HAS elements, so it is written out, not `short`
+            subs = {"Zeta": Con("zeta", 2), "X_1": None, "X_2": Con("x2", 0), "Z_A": Con("za", 0, children=1), "Z_B": Con("zb", 2, children=1, direct=0)}
             ns = {"super": lambda: type("S", (), {"to_string": lambda s, decimals=-1: own})(), "sorted": sorted, "len": len}
             me = type("C", (O.auto_methods("circuit/base", ["Container", "Element"], ns),), {"_subcircuit_value": subs})()
             O.load("circuit/base", ["Container.to_string"], ns)
             out = ns["to_string"](me, decimals=decimals)
             head, rest = own[:3], own[3:]
-            body = "X_1=open, X_2=short, Z_A=short, Zeta=<zeta>"       # Z_A: no element although it has a (hollow) child -> short, never '[()]' 
+            body = "X_1=open, X_2=short, Z_A=short, Z_B=<zb>, Zeta=<zeta>"       # Z_A: no element although it has a (hollow) child -> short, never '[()]' 
             want = head + body + (", " + rest if rest[0] not in ":}" else rest)
-            sess.check("post", [], z3.BoolVal(out == want and asked == [("zeta", decimals)]), 0, label=f"Container.to_string[{own!r}, decimals={decimals}]: sub-circuits in sorted order as open / short / text(same decimals), then the parameters")
+            sess.check("post", [], z3.BoolVal(out == want and asked == [("zb", decimals), ("zeta", decimals)]), 0, label=f"Container.to_string[{own!r}, decimals={decimals}]: sub-circuits in sorted order as open / short / text(same decimals), then the parameters")
         ns = {"super": lambda: type("S", (), {"to_string": lambda s, decimals=-1: "Tl"})(), "sorted": sorted, "len": len}
         O.load("circuit/base", ["Container.to_string"], ns)
         sess.check("post", [], z3.BoolVal(ns["to_string"](type("C", (), {"_subcircuit_value": {}})(), decimals=-1) == "Tl"), 0, label="Container.to_string(decimals=-1) == the symbol")
